@@ -264,6 +264,20 @@ pub fn judge_jar(rep: &mut Report, inputs: &[(String, Class)], others: &[(String
                 }
             }
         }
+        // Further entries: "records each in an InnerClasses entry" asks for the entry in the nested class; that other classes (its
+        // enclosing class, as javac does it) also carry the entry of an applied nest is not excluded. Entries that are exactly the
+        // entry of some applying row are accepted as additions; anything else that is added is still reported.
+        if want.inner_classes != obs.inner_classes {
+            let changing: BTreeMap<&str, &str> = exp.names.iter().filter(|(a, b)| a != b).map(|(a, b)| (a.as_str(), b.as_str())).collect();
+            let ren = |s: &str| changing.get(s).map(|x| x.to_string()).unwrap_or_else(|| s.to_string());
+            let nests: Vec<InnerClass> = exp.applying.iter().map(|r| nest_entry(r, &ren)).collect();
+            let wv = want.inner_classes.clone().unwrap_or_default();
+            if let Some(ov) = &obs.inner_classes {
+                let mut rest = ov.clone(); let mut all_there = true;
+                for ic in &wv { match rest.iter().position(|x| x == ic) { Some(k) => { rest.remove(k); } None => all_there = false } }
+                if all_there && !rest.is_empty() && rest.iter().all(|x| nests.contains(x)) { want.inner_classes = Some(ov.clone()); rep.count("jar.entry_of_an_applied_nest_also_in_another_class (accepted)"); }
+            }
+        }
         if want != obs {
             ok = false;
             for d in diff::diff(&want, &obs, 10) {
